@@ -27,7 +27,15 @@ fn chain_case(rng: &mut Rng, rec: &mut Rec) {
         Err(e) => return rec.fail("C14/setup", format!("{:?}", e)),
     };
     for hop_i in 0..hops {
-        let (kind, loc) = clean_location(rng, &original);
+        let (mut kind, mut loc) = clean_location(rng, &original);
+        if hop_i > 0 && rng.chance(1, 8) {
+            // back to the very URI that was just requested, spelled absolutely
+            kind = "self-absolute";
+            loc = normalise(&eff.uri);
+            if rng.chance(1, 2) {
+                loc.push_str("#again");
+            }
+        }
         let mut locations = vec![];
         // several Location fields: the last one counts
         for _ in 0..(if rng.chance(1, 4) { rng.usize_in(1, 2) } else { 0 }) {
@@ -305,7 +313,7 @@ impl Property for P {
     }
     fn floors(&self, _tier: Tier) -> Vec<(String, u64)> {
         let mut v = vec![];
-        for k in ["abs-original-host-same-scheme", "abs-any-host", "scheme-relative", "path-absolute", "path-relative-dots", "path-relative", "query-only", "empty", "abs-empty-path"] {
+        for k in ["abs-original-host-same-scheme", "abs-any-host", "scheme-relative", "path-absolute", "path-absolute-dots", "path-relative-dots", "path-relative", "query-only", "empty", "abs-empty-path"] {
             v.push((format!("{}/*", k), 50));
         }
         for hop in 2..=4 {
@@ -313,6 +321,8 @@ impl Property for P {
             v.push((format!("path-relative/base-dir/hop{}", hop), 2));
         }
         v.push(("several-location-fields".into(), 50));
+        v.push(("self-absolute/*".into(), 20));
+        v.push(("empty/base-file/hop2".into(), 2));
         v.push(("wire-checked".into(), 500));
         v.push(("missing-location".into(), 5));
         v.push(("non-textual-last-location-after-textual".into(), 5));
